@@ -32,7 +32,7 @@ PROP = dict(
                  "IsInSubGroup oracle = on curve and [r]P=O by reference double-and-add (subgroup membership of [k]G follows from [r]G=O)",
                  "on the incomplete curve bandersnatch (a non-square) pairs whose affine unified law has a vanishing denominator are skipped (class exceptional_unified_*)",
                  "F41 (bw6-633 G1 / bw6-761 G2 IsInSubGroup accepts order-3 components) is excluded by construction when listed as known; the probe re-observes it"],
-    mandatory_all=_MAND + ["hugebatch", "hugebatch:n/NumCPU>4096=True"],
+    mandatory_all=_MAND + ["hugebatch", "hugebatch:n/NumCPU>4096=true"],
     jobs=[
         dict(name="law", pkg="c02", run="^TestC02_Law$", shards=G1, checks=(1000, 20000), timeout=(900, 3600)),
         dict(name="law2", pkg="c02", run="^TestC02_Law$", shards=G2_FAST, checks=(600, 12000), timeout=(900, 3600)),
